@@ -1496,14 +1496,16 @@ def run(ctx: common.Ctx):
         'MutableSequence/MutableMapping mixin methods (reverse, +=, update, setdefault, ...) are compositions of the modelled primitives',
         'theorem hypotheses (AllInv, values of the view\'s type, node view under the mapping layer) are evaluated inside Coq on every dumped implementation state (check_hyps; soundness: C10_dumped_state_hypothesis_sound)',
     ]
-    ok = ctx.require_coq(['properties/C10'], extra_targets=['ViewsRun'])
+    ok = ctx.require_coq(['properties/C10'], extra_targets=['ViewsRun', 'WholeFieldRun'])
     if ok:
         sweep(ctx)
     run_all(ctx)
     probe_update_from_view(ctx)
+    from harness import wholefield
+    wholefield.run_all(ctx)          # whole-field assignment, its caches, += and wrapper copies (WholeField.v)
     # shrink monitor witnesses
     for f in ctx.failures:
-        if f.kind == 'monitor' and isinstance(f.witness, dict) and 'ops' in f.witness:
+        if f.kind == 'monitor' and isinstance(f.witness, dict) and 'ops' in f.witness and 'scenario' in f.witness:
             f.witness['ops'] = shrink_monitor(f.witness['scenario'], f.witness['layout'], f.witness['ops'], f.signature)
 
 
@@ -1536,8 +1538,10 @@ def probe_update_from_view(ctx: common.Ctx):
 
 def search(ctx: common.Ctx):
     run_all(ctx)
+    from harness import wholefield
+    wholefield.run_all(ctx)
     for f in ctx.failures:
-        if f.kind == 'monitor' and isinstance(f.witness, dict) and 'ops' in f.witness:
+        if f.kind == 'monitor' and isinstance(f.witness, dict) and 'ops' in f.witness and 'scenario' in f.witness:
             f.witness['ops'] = shrink_monitor(f.witness['scenario'], f.witness['layout'], f.witness['ops'], f.signature)
 
 
@@ -1545,6 +1549,9 @@ def replay(ctx: common.Ctx, path: str) -> int:
     data = json.loads(open(path).read())
     f = data.get('failure') or (data.get('what_no_longer_checks') or [{}])[0]
     w = f.get('witness') or {}
+    if w.get('wholefield'):
+        from harness import wholefield
+        return wholefield.replay(ctx, w)
     if 'ops' not in w:
         print(json.dumps(f, indent=1))
         return 1
